@@ -115,6 +115,28 @@ class Resolver:
 
     def _class_objects(self, func, name):
         """Classes a Name holding a class object may denote (bound_class idiom)."""
+        key = (func.qualname, name.id)
+        cache = self.__dict__.setdefault('_co_cache', {})
+        if key not in cache:
+            cache[key] = self._class_objects_uncached(func, name)
+        return set(cache[key])
+
+    def _kw_class_sites(self):
+        """(method name, keyword) -> classes passed by name at any call site."""
+        idx = self.__dict__.get('_kw_idx')
+        if idx is None:
+            idx = {}
+            for g in self.prog.functions.values():
+                for c in walk_no_nested(g.node):
+                    if isinstance(c, ast.Call) and isinstance(c.func, ast.Attribute):
+                        for k in c.keywords:
+                            if k.arg and isinstance(k.value, ast.Name) and \
+                                    k.value.id in self.prog.classes:
+                                idx.setdefault((c.func.attr, k.arg), set()).add(k.value.id)
+            self.__dict__['_kw_idx'] = idx
+        return idx
+
+    def _class_objects_uncached(self, func, name):
         out = set()
         # parameter default + assignments in the function
         a = func.node.args
@@ -133,14 +155,7 @@ class Resolver:
                 out.add(n.value.id)
         # keyword arguments at call sites anywhere in the package
         if name.id in func.params:
-            for g in self.prog.functions.values():
-                for c in walk_no_nested(g.node):
-                    if isinstance(c, ast.Call) and isinstance(c.func, ast.Attribute) and \
-                            c.func.attr == func.name:
-                        for k in c.keywords:
-                            if k.arg == name.id and isinstance(k.value, ast.Name) and \
-                                    k.value.id in self.prog.classes:
-                                out.add(k.value.id)
+            out |= self._kw_class_sites().get((func.name, name.id), set())
         return out
 
     def _locals(self, func):
